@@ -491,15 +491,17 @@ def isDec (v : V) : Bool :=
   | _ => false
 
 /-
-  `ex` ("exclude the known deviations"): with `ex = false` the predicates below are the core domain
-  of DESIGN §8.2. The real code (and the model) still DEVIATES from §8.3 at two kinds of points
-  inside that domain (observed on /repo by stream `specmatch`, recorded as known findings):
-   D3 `$size` below two fan-outs;  D5 `$all` over a fan-out with array-valued candidates.
+  `ex` ("exclude the known deviation"): with `ex = false` the predicates below are the core domain
+  of DESIGN §8.2. The real code (and the model) still DEVIATES from §8.3 at one kind of point
+  inside that domain (observed on /repo by stream `specmatch`, recorded as a known finding):
+   D3 `$size` below two fan-outs.
   `ex = true` removes exactly those points, which gives the domain on which agreement is PROVED.
-  (Former deviations D1 `$type` null on absent fields, D2 `$exists` over fan-outs reaching only
-  empty arrays and D4 `$elemMatch` field form on non-document elements were fixed in the code;
-  D6 Decimal128 `$exists` arguments and D7 `$all` with array members are domain restrictions of
-  §8.2(4) and are excluded from `core` itself.)
+  (Former deviations, all fixed in the code and now inside the proved domain: D1 `$type` null on
+  absent fields, D2 `$exists` over fan-outs reaching only empty arrays, D4 `$elemMatch` field form
+  on non-document elements, D5 `$all` over a fan-out with array-valued candidates, D6 Decimal128
+  `$exists` arguments (decimal zero is falsy), D7 `$all` with array-valued members. `$all` is now
+  literally the conjunction of the equality conditions of its members, so its restrictions are
+  those of `$eq` on each member.)
 -/
 mutual
 /-- restrictions (2) and (4) on one condition for path `p` below `root`; `fo`: the path fans out -/
@@ -508,14 +510,12 @@ def coreC (ex : Bool) (root : V) (p : Path) (fo : Bool) : Cond → Bool
   | .ne v => !isRegex v && (!fo || scalarOperand v)
   | .in_ vs => vs.all (fun v => !isRegex v) && (!fo || vs.all scalarOperand)
   | .nin vs => vs.all (fun v => !isRegex v) && (!fo || vs.all scalarOperand)
-  | .exists_ arg => !isDec arg
+  | .exists_ _ => true
   | .type _ ts => !fo || scalarTypes ts
   | .size _ => !ex || !fans2 root p
   | .all vs => vs.all (fun v => !isRegex v && !(match v with
                   | .doc ((k, _) :: _) => k == "$elemMatch"
                   | _ => false)) && (!fo || vs.all scalarOperand)
-              && (fo || vs.all fun v => !v.isArr)
-              && (!ex || !fo || (cand root p).all fun c => !c.1.isArr)
   | .mod _ _ => (leafsAt root p).all fun l => match l with | .dec _ _ => false | _ => true
   | .bits _ ps => ps.all (· < 64)
   | .not cs => coreCs ex root p fo cs
@@ -563,7 +563,7 @@ def outside (d q : Doc) : Option String := outsideX false d q
 /-- §8.2: the core domain as a decidable test -/
 def core (d q : Doc) : Bool := (outside d q).isNone
 
-/-- the core domain minus the two known deviation points D3 and D5: where agreement is proved -/
+/-- the core domain minus the known deviation point D3: where agreement is proved -/
 def coreProved (d q : Doc) : Bool := (outsideX true d q).isNone
 
 end Lungo.Spec
